@@ -2,7 +2,10 @@
    Only statements closed by `exact`, each followed by Print Assumptions.
    mach = mrun exc_max_depth clear_active_on_catch: the machine (struct Exception + the C functions
    of src/Exception.c + the expansion of the try/catch/throw macros) with both parameters re-read
-   from the working tree; ref_run = structured big-step semantics of the same program tree. *)
+   from the working tree; ref_run d c = structured big-step semantics of the same program tree at
+   nesting level d, started with message c in the record (the message register is threaded because
+   a throw with the empty format keeps the previous message); objects are identities, kind_of o is
+   the eq-class exception_catch matches by. *)
 From CelloV Require Import Generated Exn ExnProofs.
 From Coq Require Import List.
 Import ListNotations.
@@ -15,8 +18,8 @@ Import ListNotations.
 Theorem exn_machine_refines_structured : forall p st,
   depth st + nesting p <= exc_max_depth ->
   let '(tr, r, st') := mach p st in
-  let '(tr0, r0) := ref_run (depth st) p in
-  tr = tr0 /\ depth st' = depth st /\ bufs st' = bufs st /\
+  let '(tr0, r0, c') := ref_run (depth st) (msg st) p in
+  tr = tr0 /\ depth st' = depth st /\ bufs st' = bufs st /\ msg st' = c' /\
   match r0 with
   | RNormal => r = MNormal /\ (active st = false -> active st' = false)
   | RRaised k m =>
@@ -30,7 +33,7 @@ Proof. exact ExnProofs.machine_refines_structured. Qed.
 Print Assumptions exn_machine_refines_structured.
 
 Example exn_machine_refines_structured_nonvacuous :
-  depth st_init + nesting (PTry (PSeq (PTry (PThrow 0 1) [1] (PTick 1)) (PTick 2)) [0] (PThrow 2 3)) <= exc_max_depth
+  depth st_init + nesting (PTry (PSeq (PTry (PThrow 1 0) [10] (PTick 1)) (PTick 2)) [0] (PThrow 20 3)) <= exc_max_depth
   /\ depth (MS None 0 [1; 0] true) + nesting (nest (exc_max_depth - 2) (PThrow 0 1)) <= exc_max_depth.
 Proof. split; apply PeanoNat.Nat.leb_le; vm_compute; reflexivity. Qed.
 
@@ -39,7 +42,7 @@ Proof. split; apply PeanoNat.Nat.leb_le; vm_compute; reflexivity. Qed.
    object/message the structured semantics leaves unhandled. *)
 Theorem exn_whole_program : forall p, nesting p <= exc_max_depth ->
   let '(tr, r, st') := mach p st_init in
-  let '(tr0, r0) := ref_run 0 p in
+  let '(tr0, r0, c') := ref_run 0 0 p in
   tr = tr0 /\ depth st' = 0 /\
   r = match r0 with RNormal => MNormal | RRaised k m => MDied (Some k) m end.
 Proof. exact ExnProofs.whole_program. Qed.
@@ -47,35 +50,35 @@ Print Assumptions exn_whole_program.
 
 Example exn_whole_program_nonvacuous :
   nesting (nest exc_max_depth (PThrow 0 1)) <= exc_max_depth
-  /\ snd (ref_run 0 (PTry (PThrow 0 1) [1] PSkip)) = RRaised 0 1.
+  /\ snd (fst (ref_run 0 0 (PTry (PThrow 0 1) [10] PSkip))) = RRaised 0 1.
 Proof. split; [apply PeanoNat.Nat.leb_le; vm_compute; reflexivity | reflexivity]. Qed.
 
 (* A handled exception never fires again in an enclosing block: a try whose body ends normally
    (every exception raised in it was handled by a block inside it) never enters its handler. *)
 Theorem exn_handled_not_seen_outside : forall B fs h st,
   depth st + S (nesting B) <= exc_max_depth ->
-  snd (ref_run (S (depth st)) B) = RNormal ->
+  snd (fst (ref_run (S (depth st)) (msg st) B)) = RNormal ->
   let '(tr, r, st') := mach (PTry B fs h) st in
-  tr = fst (ref_run (S (depth st)) B) /\ r = MNormal /\ depth st' = depth st /\ active st' = false.
+  tr = fst (fst (ref_run (S (depth st)) (msg st) B)) /\ r = MNormal /\ depth st' = depth st /\ active st' = false.
 Proof. exact ExnProofs.handled_not_seen_outside. Qed.
 Print Assumptions exn_handled_not_seen_outside.
 
 Example exn_handled_not_seen_outside_nonvacuous :
   depth st_init + S (nesting (PTry (PThrow 0 5) [0] (PTick 1))) <= exc_max_depth
-  /\ snd (ref_run (S (depth st_init)) (PTry (PThrow 0 5) [0] (PTick 1))) = RNormal.
+  /\ snd (fst (ref_run (S (depth st_init)) (msg st_init) (PTry (PThrow 0 5) [0] (PTick 1)))) = RNormal.
 Proof. split; [apply PeanoNat.Nat.leb_le; vm_compute; reflexivity | reflexivity]. Qed.
 
 (* The structured semantics [ref_run] the theorems above compare with is the relation [eval]
    (Exn.v: one rule per way a construct can end). *)
-Theorem exn_reference_is_eval : forall d p t r, eval d p t r <-> ref_run d p = (t, r).
+Theorem exn_reference_is_eval : forall d c p t r c', eval d c p t r c' <-> ref_run d c p = (t, r, c').
 Proof. exact ExnProofs.eval_iff_ref_run. Qed.
 Print Assumptions exn_reference_is_eval.
 
-Theorem exn_machine_follows_eval : forall p st t r0,
+Theorem exn_machine_follows_eval : forall p st t r0 c',
   depth st + nesting p <= exc_max_depth ->
-  eval (depth st) p t r0 ->
+  eval (depth st) (msg st) p t r0 c' ->
   let '(tr, r, st') := mach p st in
-  tr = t /\ depth st' = depth st /\
+  tr = t /\ depth st' = depth st /\ msg st' = c' /\
   match r0 with
   | RNormal => r = MNormal
   | RRaised k m => obj st' = Some k /\ msg st' = m /\
@@ -85,66 +88,82 @@ Proof. exact ExnProofs.machine_follows_eval. Qed.
 Print Assumptions exn_machine_follows_eval.
 
 Example exn_machine_follows_eval_nonvacuous :
-  depth st_init + nesting (PTry (PTry (PThrow 0 5) [1] (PTick 1)) [0; 2] (PTick 2)) <= exc_max_depth /\
-  eval (depth st_init) (PTry (PTry (PThrow 0 5) [1] (PTick 1)) [0; 2] (PTick 2)) [EHandler 0 5 0; ETick 2 0] RNormal.
+  depth st_init + nesting (PTry (PTry (PThrow 2 5) [10] (PTick 1)) [0; 20] (PTick 2)) <= exc_max_depth /\
+  eval (depth st_init) (msg st_init) (PTry (PTry (PThrow 2 5) [10] (PTick 1)) [0; 20] (PTick 2)) [EHandler 2 5 0; ETick 2 0] RNormal 5.
 Proof. split; [apply PeanoNat.Nat.leb_le; vm_compute; reflexivity | apply ExnProofs.eval_iff_ref_run; reflexivity]. Qed.
 
 (* "A handler runs if and only if an exception raised in its own try body was not already handled
-   by an inner block and matches its filter (an empty filter matches everything)"; when it runs it
+   by an inner block and matches its filter (an empty filter matches everything)"; accepts fs o =
+   the filter is empty or one of its entries is `eq` to o (same kind); when it runs it
    is entered once, with the escaped exception bound, and the block ends as the handler ends. *)
-Theorem exn_handler_runs_iff : forall d b fs h t r,
-  eval d (PTry b fs h) t r ->
-  forall t1 r1, eval (S d) b t1 r1 ->
-  ((exists k m, r1 = RRaised k m /\ (fs = [] \/ In k fs)) <->
+Theorem exn_handler_runs_iff : forall d c b fs h t r c',
+  eval d c (PTry b fs h) t r c' ->
+  forall t1 r1 c1, eval (S d) c b t1 r1 c1 ->
+  ((exists k m, r1 = RRaised k m /\ accepts fs k) <->
    (exists k m t2, t = t1 ++ EHandler k m d :: t2)) /\
   (forall k m t2, t = t1 ++ EHandler k m d :: t2 ->
-     r1 = RRaised k m /\ exists r2, eval d h t2 r2 /\ r = r2).
+     r1 = RRaised k m /\ exists r2, eval d c1 h t2 r2 c' /\ r = r2).
 Proof. exact ExnProofs.handler_runs_iff. Qed.
 Print Assumptions exn_handler_runs_iff.
 
 Example exn_handler_runs_iff_nonvacuous :
-  eval 0 (PTry (PThrow 1 7) [0; 1] (PTick 3)) [EHandler 1 7 0; ETick 3 0] RNormal /\
-  eval 1 (PThrow 1 7) [] (RRaised 1 7).
+  eval 0 4 (PTry (PThrow 11 0) [0; 10] (PTick 3)) [EHandler 11 4 0; ETick 3 0] RNormal 4 /\
+  eval 1 4 (PThrow 11 0) [] (RRaised 11 4) 4.
 Proof. split; apply ExnProofs.eval_iff_ref_run; reflexivity. Qed.
 
 (* "A non-matching exception continues to the nearest enclosing matching handler": p raises k inside
    blocks pre (innermost first) none of which accepts k, inside a block that does, inside anything:
    none of the skipped handlers runs, the accepting one is entered with k at its own depth. *)
-Theorem exn_nearest_matching_handler : forall pre fs h p st t1 k m,
+Theorem exn_nearest_matching_handler : forall pre fs h p st t1 k m c1,
   depth st + nesting (chain (pre ++ [(fs, h)]) p) <= exc_max_depth ->
-  ref_run (S (length pre + depth st)) p = (t1, RRaised k m) ->
-  Forall (fun lv => fst lv <> [] /\ ~ In k (fst lv)) pre ->
-  (fs = [] \/ In k fs) ->
+  ref_run (S (length pre + depth st)) (msg st) p = (t1, RRaised k m, c1) ->
+  Forall (fun lv => rejects (fst lv) k) pre ->
+  accepts fs k ->
   let '(tr, r, st') := mach (chain (pre ++ [(fs, h)]) p) st in
-  let '(t2, r2) := ref_run (depth st) h in
+  let '(t2, r2, c2) := ref_run (depth st) c1 h in
   tr = t1 ++ EHandler k m (depth st) :: t2 /\ depth st' = depth st /\
   (r2 = RNormal -> r = MNormal).
 Proof. exact ExnProofs.machine_nearest_matching_handler. Qed.
 Print Assumptions exn_nearest_matching_handler.
 
 Example exn_nearest_matching_handler_nonvacuous :
-  depth st_init + nesting (chain ([([1], PTick 1); ([2; 3], PTick 2)] ++ [([0], PTick 3)]) (PThrow 0 9)) <= exc_max_depth /\
-  ref_run (S (length [([1], PTick 1); ([2; 3], PTick 2)] + depth st_init)) (PThrow 0 9) = ([], RRaised 0 9) /\
-  Forall (fun lv : list nat * prog => fst lv <> [] /\ ~ In 0 (fst lv)) [([1], PTick 1); ([2; 3], PTick 2)].
+  depth st_init + nesting (chain ([([10], PTick 1); ([20; 31], PTick 2)] ++ [([1], PTick 3)]) (PThrow 0 9)) <= exc_max_depth /\
+  ref_run (S (length [([10], PTick 1); ([20; 31], PTick 2)] + depth st_init)) (msg st_init) (PThrow 0 9) = ([], RRaised 0 9, 9) /\
+  Forall (fun lv : list nat * prog => rejects (fst lv) 0) [([10], PTick 1); ([20; 31], PTick 2)].
 Proof.
   split; [apply PeanoNat.Nat.leb_le; vm_compute; reflexivity|]. split; [reflexivity|].
-  repeat constructor; cbn; try discriminate; intuition discriminate.
+  repeat constructor; cbn; try discriminate; intros f Hf; intuition (subst; discriminate).
 Qed.
 
 (* "... and one that nobody handles terminates the program with a failure status and a diagnostic" *)
-Theorem exn_nobody_matches_dies : forall pre p t1 k m,
+Theorem exn_nobody_matches_dies : forall pre p t1 k m c1,
   nesting (chain pre p) <= exc_max_depth ->
-  ref_run (length pre) p = (t1, RRaised k m) ->
-  Forall (fun lv => fst lv <> [] /\ ~ In k (fst lv)) pre ->
+  ref_run (length pre) 0 p = (t1, RRaised k m, c1) ->
+  Forall (fun lv => rejects (fst lv) k) pre ->
   let '(tr, r, st') := mach (chain pre p) st_init in
   tr = t1 /\ r = MDied (Some k) m /\ depth st' = 0.
 Proof. exact ExnProofs.machine_nobody_matches. Qed.
 Print Assumptions exn_nobody_matches_dies.
 
 Example exn_nobody_matches_dies_nonvacuous :
-  nesting (chain [([1], PTick 1); ([2; 3], PTick 2)] (PSeq (PTick 5) (PThrow 0 9))) <= exc_max_depth /\
-  ref_run (length [([1], PTick 1); ([2; 3], PTick 2)]) (PSeq (PTick 5) (PThrow 0 9)) = ([ETick 5 2], RRaised 0 9).
+  nesting (chain [([10], PTick 1); ([20; 31], PTick 2)] (PSeq (PTick 5) (PThrow 0 9))) <= exc_max_depth /\
+  ref_run (length [([10], PTick 1); ([20; 31], PTick 2)]) 0 (PSeq (PTick 5) (PThrow 0 9)) = ([ETick 5 2], RRaised 0 9, 9).
 Proof. split; [apply PeanoNat.Nat.leb_le; vm_compute; reflexivity | reflexivity]. Qed.
+
+(* "The object bound in the handler is the one that was thrown" — by IDENTITY: also when an object
+   that is `eq` to it (o1, same kind as o2 for instance) was thrown and handled just before and is
+   still held in the record, with any formats (message 0 = the empty format, which leaves the
+   record's message as it is: set_msg). *)
+Theorem exn_bound_object_is_thrown_identity : forall o1 o2 m1 m2 fs,
+  accepts fs o2 ->
+  fst (mach (PSeq (PTry (PThrow o1 m1) [] PSkip) (PTry (PThrow o2 m2) fs PSkip)) st_init)
+  = ([EHandler o1 (set_msg m1 0) 0; EHandler o2 (set_msg m2 (set_msg m1 0)) 0], MNormal).
+Proof. exact ExnProofs.bound_object_is_thrown_identity. Qed.
+Print Assumptions exn_bound_object_is_thrown_identity.
+
+Example exn_bound_object_is_thrown_identity_nonvacuous :
+  accepts [0] 1 /\ 0 <> 1 /\ kind_of 0 = kind_of 1.
+Proof. split; [right; exists 0; split; [now left | reflexivity] | split; [discriminate | reflexivity]]. Qed.
 
 (* The nesting bound of the theorems is the real one: one more try aborts. *)
 Theorem exn_overflow_aborts : forall b fs h st,
@@ -155,12 +174,12 @@ Print Assumptions exn_overflow_aborts.
 (* D3: the pinned code (exception_catch never clears [active]) does not follow block structure. *)
 Theorem exn_unrepaired_refuted :
   exists p, nesting p <= exc_max_depth /\
-    fst (fst (mrun exc_max_depth false p st_init)) <> fst (ref_run 0 p).
+    fst (fst (mrun exc_max_depth false p st_init)) <> fst (fst (ref_run 0 0 p)).
 Proof. exact ExnProofs.unrepaired_refuted. Qed.
 Print Assumptions exn_unrepaired_refuted.
 
 Theorem exn_unrepaired_refuted_dies :
-  exists p, nesting p <= exc_max_depth /\ snd (ref_run 0 p) = RNormal /\
+  exists p, nesting p <= exc_max_depth /\ snd (fst (ref_run 0 0 p)) = RNormal /\
     snd (fst (mrun exc_max_depth false p st_init)) = MDied (Some 0) 5.
 Proof. exact ExnProofs.unrepaired_refuted_dies. Qed.
 Print Assumptions exn_unrepaired_refuted_dies.
@@ -179,7 +198,7 @@ Example exn_foreach_walk_agrees_on_sets_nonvacuous :
 Proof. split; [repeat constructor; cbn; intuition discriminate | split; [discriminate | apply le_n]]. Qed.
 
 Theorem exn_foreach_walk_refuted : forall fuel,
-  foreach_matches fuel [0; 0] (hd_error [0; 0]) 1 = None.
+  foreach_matches fuel [0; 0] (hd_error [0; 0]) 10 = None.
 Proof. exact ExnProofs.foreach_diverges_on_duplicate. Qed.
 Print Assumptions exn_foreach_walk_refuted.
 
